@@ -509,6 +509,11 @@ func callSSA(i *interpreter, caller *frame, callpos token.Pos, fn *ssa.Function,
 		if ext := externals[name]; ext != nil {
 			return ext(fr, args)
 		}
+		if len(i.pg.Hooks) > 0 && fn.Pkg != nil {
+			if h := i.pg.Hooks[fn.Name()]; h != nil {
+				return h(i, args)
+			}
+		}
 		if fn.Blocks == nil {
 			if o := fn.Origin(); o != nil {
 				if ext := externals[o.String()]; ext != nil {
